@@ -210,7 +210,8 @@ def jar_lookup(cookie_header, name):
 
 
 # --------------------------------------------------------------------------- tampering
-def tamper_stream(t, rng, per_pos_alphabet, per_pos_outside, t_other=None, dsize=0, signed=None, signed_other=None):
+def tamper_stream(t, rng, per_pos_alphabet, per_pos_outside, t_other=None, dsize=0, signed=None, signed_other=None,
+                  key=None, alg=None):
     """Yield (label, token') for alterations of the issued token t (bytes)."""
     n = len(t)
     for i in range(n):
@@ -233,11 +234,16 @@ def tamper_stream(t, rng, per_pos_alphabet, per_pos_outside, t_other=None, dsize
     for k in (1, 2, 3):
         if n > k:
             yield "repad", t[:-k] + b"=" * k
+    for junk in (b"", b"=", b"==", b"====", b"!", b"\n", b"AA", b"AA==", b"AAA=", b"AAAA"):
+        yield "degenerate", junk
     if signed is not None:
         sig, c = signed[:dsize], signed[dsize:]
         enc = lambda b: base64.urlsafe_b64encode(b).rstrip(b"=")  # noqa
         for k in sorted({0, 1, 4, 8, dsize // 2, dsize - 1} - {dsize}):
             yield "tag-prefix", enc(sig[:k] + c)                     # a prefix of the tag only
+        if key is not None:
+            for k in range(0, dsize):                                 # a short prefix of the tag of the EMPTY payload
+                yield "empty-payload-tag-prefix", enc(real_hmac.new(key, b"", alg).digest()[:k])
         yield "tag-extended", enc(sig + b"\x00" + c)
         yield "payload-extended", enc(sig + c + b" ")
         yield "payload-truncated", enc(sig + c[:-1])
@@ -271,6 +277,21 @@ def check_loads_case(case):
     d = ref_decode(tok)
     mine = ref_signed(secret, salt, alg, ref_ser(v))     # the octets the loader itself would issue for v
     shown = case.get("token_text", None) or tok
+    # the same token through a serializer that is the identity on bytes (no JSON parser to hide an acceptance):
+    # the payload comes back iff the token carries a full-length valid tag
+    from webob.cookies import SignedSerializer
+    ok2, r2 = run_catch(SignedSerializer(secret, salt, alg, serializer=RawSerializer()).loads, tok)
+    ds_ = DSIZE[alg]
+    valid = d is not None and len(d) >= ds_ and real_hmac.compare_digest(
+        real_hmac.new(ref_key(secret, salt), d[ds_:], alg).digest(), d[:ds_])
+    if ok2 and not valid:
+        return "loads:signature-check-passed-without-valid-tag", (
+            "with a pass-through serializer loads(%r) returned %r although the token carries no full-length valid tag "
+            "(%s/%r/%r)" % (shown, r2, alg, secret, salt))
+    if valid and not (ok2 and r2 == d[ds_:]):
+        return "loads:valid-token-rejected", "with a pass-through serializer loads(%r) gave %r for a validly signed token" % (shown, r2)
+    if not ok2 and r2 != "ValueError":
+        return "loads:wrong-exception", "loads(%r) raised %s, not ValueError" % (shown, r2)
     if not ok:
         if r != "ValueError":
             return "loads:wrong-exception", "loads(%r) raised %s, not ValueError (%s/%r/%r)" % (shown, r, alg, secret, salt)
@@ -344,7 +365,10 @@ def check_get_value_case(case):
     how = case.get("bind", "bind")
     req = make_request(header)
     bound = p.bind(req) if how == "bind" else p(req)
-    ok, r = run_catch(bound.get_value)
+    try:
+        ok, r = True, bound.get_value()
+    except Exception as e:  # noqa
+        ok, r = False, type(e).__name__
     delivered = jar_lookup(header, name)
     if not ok:
         if delivered == "raises":
@@ -427,6 +451,37 @@ def check_limit_case(case):
     return None
 
 
+class RawSerializer:
+    """identity on bytes: lets a serialisation have any length"""
+
+    def dumps(self, v):
+        return v
+
+    def loads(self, b):
+        return b
+
+
+def raw_profile(name, domains):
+    from webob.cookies import CookieProfile
+    return CookieProfile(name, domains=domains or None, serializer=RawSerializer())
+
+
+def check_rawlimit_case(case):
+    from webob import Response
+    n = case["n"]
+    p = raw_profile(case["name"], case.get("domains"))
+    for what, f in (("get_headers", lambda: p.get_headers(b"A" * n)), ("set_cookies", lambda: p.set_cookies(Response(), b"A" * n))):
+        ok, r = run_catch(f)
+        if n > 4093:
+            if ok:
+                return "limit:long-value-accepted", "%s accepted a %d-byte serialisation (limit 4093)" % (what, n)
+            if r != "ValueError":
+                return "limit:wrong-exception", "%s raised %s for a %d-byte serialisation" % (what, r, n)
+        elif not ok:
+            return "limit:short-value-refused", "%s raised %s for a %d-byte serialisation (limit 4093)" % (what, r, n)
+    return None
+
+
 def check_plain_case(case):
     """Plain CookieProfile / Base64Serializer: round trip, ValueError-only errors, get_value None on garbage."""
     from webob.cookies import Base64Serializer, CookieProfile
@@ -499,11 +554,14 @@ def check_echo_case(case):
 
 CHECKS = {"loads": check_loads_case, "roundtrip": check_roundtrip_case, "get_value": check_get_value_case,
           "profile": check_profile_roundtrip_case, "limit": check_limit_case, "plain": check_plain_case,
-          "echo": check_echo_case}
+          "echo": check_echo_case, "rawlimit": check_rawlimit_case}
 
 
 def run_case(case):
-    return CHECKS[case["kind"]](case)
+    try:
+        return CHECKS[case["kind"]](case)
+    except Exception as e:  # noqa  -- the implementation raised where the statement allows no exception at all
+        return case["kind"] + ":implementation-raises", "%s on %s" % (repr(e)[:300], json.dumps(case)[:300])
 
 
 # --------------------------------------------------------------------------- generators
@@ -582,9 +640,15 @@ def corr_followup(ctx, name, cases, bad, to_oracle_cases):
 
 # --------------------------------------------------------------------------- the check
 def correspondence(ctx):
-    rng = ctx.sub_rng("corr")
-    n = ctx.scale(400, 4000)
+    for section in (corr_base64, corr_salted, corr_signed, corr_b64ser, corr_get_value, corr_get_headers):
+        try:
+            section(ctx, ctx.sub_rng("corr-" + section.__name__), ctx.scale(300, 4000))
+        except Exception:  # noqa  -- the implementation raised outside any modelled outcome; the oracle sweep looks for the input
+            import traceback
+            ctx.broken.append("correspondence %s could not be run: %s" % (section.__name__, traceback.format_exc()[-700:]))
 
+
+def corr_base64(ctx, rng, n):
     # ---- base64 decode / encode against CPython
     cases = []
     seen = set()
@@ -615,6 +679,8 @@ def correspondence(ctx):
     for i in bad[:5]:
         ctx.broken.append("b64enc model differs from base64.urlsafe_b64encode on %s" % cases[i][2]["input"])
 
+
+def corr_salted(ctx, rng, n):
     # ---- salted secret
     cases = []
     pairs = list(SECRETS) + [("a\ud800", "s"), ("a", "\udfff"), ("\xff", "Ā"), ("Ā", "\xff"), ("\U0010ffff", "߿ࠀ")]
@@ -628,6 +694,8 @@ def correspondence(ctx):
     corr_followup(ctx, "salted_secret", cases, bad,
                   lambda c: [c] if run_catch(lambda: ((c["salt"] or "") + c["secret"]).encode("utf-8"))[0] else [])
 
+
+def corr_signed(ctx, rng, n):
     # ---- SignedSerializer.dumps / loads on recorded hmac / json answers
     dcases, lcases = [], []
     for i in range(n):
@@ -666,15 +734,17 @@ def correspondence(ctx):
                 oc["token"] = tok.hex()
             lcases.append(("(%s, %s, %s, %s, %s)" % (c_ss(secret, salt), cnat(DSIZE[alg]), cstr(tok), c_mac_table(rec.mac),
                                                      c_deser_table(rec.deser)),
-                           [out_val(ok, r), True], oc))
+                           [out_val(ok, r), True, True, len(rec.deser) > 0], oc))
     bad = ctx.corr("signed_dumps", IMPORTS, "corr_dumps", dcases, in_type="((str * str) * str * mac_table * ser_table)")
     corr_followup(ctx, "signed_dumps", dcases, bad, lambda c: [c])
     bad = ctx.corr("signed_loads", IMPORTS, "corr_loads", lcases,
                    in_type="((str * str) * nat * str * mac_table * deser_table)")
     corr_followup(ctx, "signed_loads", lcases, bad, lambda c: [c, dict(c, kind="roundtrip")])
 
+
+def corr_b64ser(ctx, rng, n):
     # ---- Base64Serializer
-    from webob.cookies import Base64Serializer, CookieProfile
+    from webob.cookies import Base64Serializer
     dcases, lcases = [], []
     for i in range(n // 2):
         v = rng.choice(PAYLOADS) if i % 3 == 0 else rand_json(rng)
@@ -692,7 +762,10 @@ def correspondence(ctx):
     bad = ctx.corr("b64ser_loads", IMPORTS, "corr_b64ser_loads", lcases, in_type="(str * deser_table)")
     corr_followup(ctx, "b64ser_loads", lcases, bad, lambda c: [c])
 
+
+def corr_get_value(ctx, rng, n):
     # ---- get_value: SignedCookieProfile (wiring, bind) and plain CookieProfile, on a real Request
+    from webob.cookies import Base64Serializer, CookieProfile
     gcases, pcases = [], []
     for i in range(n):
         secret, salt = rng.choice(SECRETS) if i % 2 else rand_secret(rng)
@@ -721,7 +794,7 @@ def correspondence(ctx):
         out = (None if r is None else canon(r)) if ok else Err(r)
         lit = "(%s, %s, %s, %s, %s)" % (c_profile(secret, salt, name, []), "None" if how == "unbound" else "(Some %s)" % c_jar(jar),
                                         cnat(DSIZE[alg]), c_mac_table(rec.mac), c_deser_table(rec.deser))
-        gcases.append((lit, out, {"kind": "get_value", "secret": secret, "salt": salt, "alg": alg, "name": name,
+        gcases.append((lit, [out, True, True], {"kind": "get_value", "secret": secret, "salt": salt, "alg": alg, "name": name,
                                   "header": header, "value": json.dumps(v), "bind": how}))
         if i % 3 == 0:
             t2 = Base64Serializer().dumps(v)
@@ -749,6 +822,8 @@ def correspondence(ctx):
         else:
             ctx.broken.append("correspondence get_value_plain: model and implementation disagree on %s" % json.dumps(c))
 
+
+def corr_get_headers(ctx, rng, n):
     # ---- get_headers: limit and Set-Cookie shape
     hcases = []
     specs = []
@@ -773,6 +848,18 @@ def correspondence(ctx):
                                     c_ser_table(rec.ser))
         hcases.append((lit, out, {"kind": "limit", "secret": secret, "salt": salt, "alg": alg, "name": name, "n": len(body),
                                   "domains": domains}))
+    # any length, through a serializer that is the identity on bytes (4093 itself is not a length a base64 token can have)
+    rcases = []
+    for i, n_ in enumerate(list(range(4086, 4100)) + [rng.randrange(1, 300) for _ in range(20)]):
+        name = NAMES[i % len(NAMES)]
+        domains = [[], ["example.com"], ["a.example.com", "example.com"]][i % 3]
+        body = bytes(rng.choice(ALPHABET) for _ in range(n_))
+        ok, r = run_catch(raw_profile(name, domains).get_headers, body)
+        rcases.append(("(%s, %s, %s)" % (cstr(name), clist(cstr(d) for d in domains), cstr(body)),
+                       [h for _, h in r] if ok else Err(r), {"kind": "rawlimit", "name": name, "domains": domains, "n": n_}))
+    bad = ctx.corr("get_headers_raw", IMPORTS, "corr_get_headers_raw", rcases, in_type="(str * list str * bytes)",
+                   shard=8, shard_bytes=400000)
+    corr_followup(ctx, "get_headers_raw", rcases, bad, lambda c: [c])
     bad = ctx.corr("get_headers", IMPORTS, "corr_get_headers", hcases, in_type="(sprofile * str * mac_table * ser_table)",
                    shard=12, shard_bytes=400000)
     corr_followup(ctx, "get_headers", hcases, bad,
@@ -811,7 +898,8 @@ def oracle(ctx):
                 v2 = {"other": v}
                 signed, signed2 = ref_signed(s, l, a, ref_ser(v)), ref_signed(s, l, a, ref_ser(v2))
                 base = {"kind": "loads", "secret": s, "salt": l, "alg": a, "value": json.dumps(v)}
-                for label, t2 in tamper_stream(t, rng, per_pos_alph, per_pos_out, ref_token(s, l, a, v2), DSIZE[a], signed, signed2):
+                for label, t2 in tamper_stream(t, rng, per_pos_alph, per_pos_out, ref_token(s, l, a, v2), DSIZE[a], signed, signed2,
+                                                ref_key(s, l), a):
                     if t2 != t:
                         yield dict(base, token=t2.hex(), alteration=label)
     small = [{"a": 1}, "x", None, [1, 2, 3], 0, "h\xe9"]
@@ -820,7 +908,7 @@ def oracle(ctx):
         do("alterations-all-octets", all_octets(ctx, 4))
     else:
         do("alterations-exhaustive", alterations(4, 64, len(OUTSIDE), small[:2]))       # 4 digests, every position x every symbol
-    do("alterations-sampled", alterations(len(SECRETS) * 2, 3, 2, [rng.choice(PAYLOADS[:-1]) for _ in range(ctx.scale(2, 6))]))
+    do("alterations-sampled", alterations(ctx.scale(len(SECRETS), len(SECRETS) * 2), 3, 2, [rng.choice(PAYLOADS[:-1]) for _ in range(ctx.scale(2, 6))]))
 
     # 3. tokens issued under another secret / salt / digest, or with a wrongly derived key
     cases = []
@@ -893,7 +981,9 @@ def oracle(ctx):
         for n in list(range(lo - DSIZE[a], hi - DSIZE[a])) + [0, 1, 100, 5000, 20000]:
             cases.append({"kind": "limit", "secret": s, "salt": l, "alg": a, "name": "session", "n": n,
                           "domains": [] if n % 2 else ["example.com"]})
-    do("limit", cases, sum(1 for c in cases if 4080 <= len(ref_token(c["secret"], c["salt"], c["alg"], "x" * c["n"])) <= 4110))
+    for n in list(range(4000, 4200)) + [0, 1, 2, 4093 * 2, 10 ** 5]:
+        cases.append({"kind": "rawlimit", "name": "c", "domains": [] if n % 2 else ["example.com", "b.example.com"], "n": n})
+    do("limit", cases, sum(1 for c in cases if c["kind"] == "rawlimit") + sum(1 for c in cases if c["kind"] == "limit" and 4080 <= len(ref_token(c["secret"], c["salt"], c["alg"], "x" * c["n"])) <= 4110))
 
     # 7. plain CookieProfile / Base64Serializer
     cases = [{"kind": "plain", "sub": "roundtrip", "value": json.dumps(v)} for v in PAYLOADS]
@@ -923,8 +1013,51 @@ def all_octets(ctx, ntok):
                            "token": (t[:pos] + bytes([c]) + t[pos + 1:]).hex(), "alteration": "sub-octet"}
 
 
+CLOSURE = ["Lib/Val.v", "Lib/PyStr.v", "Model/C16_signed.v", "Proofs/C16_signed.v", "Proofs/C16_b64alter.v",
+           "Proofs/C16_examples.v", "Props/C16.v"]
+
+
+def build(ctx):
+    """ctx.build; if the shared make fails for a reason outside this property's files (coqdep scans every .v of the
+    tree, so a file of another property that does not parse at that moment stops the build), compile this property's
+    own closure directly with coqc -- the same kernel check of the same files."""
+    import fcntl
+    import os
+    import re
+    import subprocess
+    if ctx.build(["Props/C16.vo"]):
+        return
+    mine = [b for b in ctx.broken if b.startswith("build of Props/C16.vo failed")]
+    if not mine or re.search(r"C16_|Props/C16\.v|Lib/Val\.v|Lib/PyStr\.v", mine[0].split("failed:", 1)[1]):
+        return
+    out = ""
+    with open(os.path.join(fw.BUILD, "coq.lock"), "w") as lk:
+        fcntl.flock(lk, fcntl.LOCK_EX)
+        for f in CLOSURE:
+            vo = os.path.join(fw.COQ, f + "o")
+            if f != "Props/C16.v" and os.path.exists(vo) and os.path.getmtime(vo) >= os.path.getmtime(os.path.join(fw.COQ, f)):
+                continue
+            p = subprocess.run(["timeout", "900", "coqc", "-Q", ".", "Webob", "-w", "-all", f], cwd=fw.COQ,
+                               capture_output=True, text=True)
+            if p.returncode != 0:
+                ctx.broken.append("direct build of %s failed: %s" % (f, (p.stderr or p.stdout)[-400:]))
+                return
+            out = p.stdout
+    names = re.findall(r"^\s*(?:Theorem|Lemma|Corollary)\s+(\w+)", open(os.path.join(fw.COQ, "Props/C16.v")).read(), flags=re.M)
+    closed = re.findall(r"^(Closed under the global context|Axioms:)", out, flags=re.M)
+    if len(closed) != len(names) or "Axioms:" in out:
+        ctx.broken.append("direct build: Print Assumptions reports %d closed of %d theorems" % (len(closed), len(names)))
+        return
+    ctx.broken.remove(mine[0])
+    ctx.discharged += len(names)
+    ctx.assumptions["Props/C16.vo"] = {"print_assumptions_outputs": len(closed), "closed_under_global_context": len(closed),
+                                       "axioms": []}
+    ctx.checker_cmd = "coqc -Q . Webob <closure of Props/C16.v> (direct; shared make stopped on another property's file)"
+    ctx.note("shared make failed outside C16 (%s); C16's closure was compiled directly with coqc" % mine[0][:200])
+
+
 def run(ctx):
-    ctx.build(["Props/C16.vo"])
+    build(ctx)
     correspondence(ctx)
     oracle(ctx)
     ctx.extra["rule"] = (
